@@ -94,7 +94,7 @@ Section RecordProofs.
     mem old W = true -> mem new W = true -> out (map kt (mrename old new r)) = out (map kt r).
   Proof.
     intros Ho Hn. unfold mrename. destruct (mget old r) as [v|]; [|reflexivity].
-    destruct (mhas new r).
+    destruct (beqb old new); [reflexivity|]. destruct (mhas new r).
     - now rewrite out_mremove, out_mput.
     - now apply out_rename_key.
   Qed.
@@ -102,7 +102,7 @@ Section RecordProofs.
   Lemma good_mrename old new r : good r -> good (mrename old new r).
   Proof.
     intros Hg. unfold mrename. destruct (mget old r) as [v|] eqn:E; [|exact Hg].
-    destruct (mhas new r).
+    destruct (beqb old new); [exact Hg|]. destruct (mhas new r).
     - apply good_mremove, good_mput; [eapply mget_good; eauto|exact Hg].
     - now apply good_rename_key.
   Qed.
